@@ -218,6 +218,48 @@ class Gen:
             slist = [(s, rng.uniform(0, 10)) for s in m['States']]
         return self.finish(m['Name'], plist, ilist, slist, kind, wild)
 
+    def member(self, m, mode, L, split):
+        """one request of a session.  mode: 'supplied' (every parameter given, different from its default and from 0
+        where the range allows), 'omitted' (defaults), 'zero' (exactly 0, or the lower range end when 0 is outside
+        the declared range), 'end' (upper range end), 'mixed' (per parameter one of these).  Parameters whose default /
+        zero value is a known crash trigger of the model itself (DateGenerator date, GR4J X4, Lag timeLag,
+        StorageRouting shape parameters) always stay inside their domain."""
+        rng = self.rng
+        plist = []
+        modes = []
+        for p in (m['Parameters'] or []):
+            lo, hi, dflt = h2f(p['Lo']), h2f(p['Hi']), h2f(p['Default'])
+            if m['Name'] in ('DateGenerator', 'StorageRouting') or p['Name'] in ('X4', 'timeLag'):
+                plist.append((p['Name'], self.pvalue(m['Name'], p)))
+                continue
+            md = mode if mode != 'mixed' else rng.choice(['supplied', 'omitted', 'zero', 'end'])
+            modes.append(md)
+            if md == 'omitted':
+                continue
+            if md == 'supplied':
+                v = dflt
+                for _ in range(8):
+                    v = self.pvalue(m['Name'], p)
+                    if v != dflt and v != 0.0:
+                        break
+                if v == dflt or v == 0.0:
+                    v = (lo + hi) / 2 if lo < hi and (lo + hi) / 2 not in (dflt, 0.0) else dflt + 1.5
+            elif md == 'zero':
+                v = 0.0 if (lo <= 0.0 <= hi or not lo < hi) else lo
+            else:
+                v = hi if lo < hi else 1.0
+            plist.append((p['Name'], v))
+        ilist = []
+        for n in m['Inputs']:
+            if mode == 'mixed' and len(m['Inputs']) > 1 and rng.random() < 0.1:
+                continue
+            ilist.append([n, self.series(L, rng.choice(['wet', 'wet', 'ints', 'mixed']))])
+        rng.shuffle(ilist)
+        cs = self.finish(m['Name'], plist, ilist, [], 'session')
+        cs['split'] = split
+        cs['modes'] = modes
+        return cs
+
     def large(self, m, size, kind='large'):
         """a request for model m whose JSON text is EXACTLY [size] bytes: all inputs supplied as long series of
         full-precision values (as many time steps as fit), in-range parameters, and the remainder made up with
@@ -636,6 +678,64 @@ def main():
         reuse_cases.append(cs)
         large_cases.append(cs)
 
+    # session stream: k = 2..6 requests served by ONE process, one call of RunSingleModelJSON per request (a
+    # long-lived service).  Every member is also an ordinary case (fresh process, direct run, model), and its answer
+    # inside the session must be byte-identical to the answer it gets alone: nothing may carry over between calls.
+    pool = [m for m in desc if not m['Dimensions']]
+    by_nout = {}
+    for m in pool:
+        by_nout.setdefault(len(m['Outputs']), []).append(m)
+    sessions = []
+    def new_session(members, kind, split):
+        for cs in members:
+            cs['split'] = split
+        sessions.append({'members': members, 'kind': kind, 'split': split})
+        cases.extend(members)
+    for rep in range(1 if quick else 6):
+        for m in pool:
+            # the same model again and again: everything supplied, then defaults, then exactly 0 / range ends, then mixtures;
+            # the same series length first (same array sizes), then other lengths
+            k = rng.randint(2, 6)
+            split = rng.choice([0, 1])
+            L = rng.choice([1, 2, 3, 7, 40])
+            order = ['supplied', 'omitted', 'zero'] if rng.random() < 0.7 else ['supplied', 'zero', 'omitted']
+            seq = (order + ['mixed'] * 3)[:k] if k > 2 else ['supplied', rng.choice(['omitted', 'zero'])]
+            members = []
+            for j, md in enumerate(seq):
+                Lj = L if j < 3 or rng.random() < 0.5 else rng.choice([1, 2, 3, 7, 40])
+                members.append(g.member(m, md, Lj, split))
+            new_session(members, 'same-model', split)
+    for _ in range(14 if quick else 150):
+        # different models interleaved, preferably with equally many outputs and equal lengths (equal array sizes),
+        # ordinary configurations first, degenerate ones (0 / defaults) after them; sometimes an error request in between
+        group = rng.choice([v for v in by_nout.values() if len(v) >= 2]) if rng.random() < 0.7 else pool
+        ms = rng.sample(group, min(len(group), rng.randint(2, 3)))
+        k = rng.randint(2, 6)
+        split = rng.choice([0, 1])
+        L = rng.choice([1, 2, 3, 7])
+        members = []
+        seen = set()
+        for j in range(k):
+            m = ms[j % len(ms)] if rng.random() < 0.8 else rng.choice(ms)
+            md = 'supplied' if m['Name'] not in seen else rng.choice(['omitted', 'zero', 'mixed', 'end', 'supplied'])
+            seen.add(m['Name'])
+            Lj = L if rng.random() < 0.75 else rng.choice([1, 2, 3, 7, 40])
+            cs = g.member(m, md, Lj, split)
+            if rng.random() < 0.12:
+                bad = rng.choice(['noname', 'noinputs', 'length'])
+                if bad == 'noname':
+                    cs = g.finish(rng.choice(['', 'NoSuchModel']), cs['params'], cs['inputs'], [], 'session')
+                    cs['modes'] = []
+                elif bad == 'noinputs':
+                    cs = g.finish(m['Name'], cs['params'], [], [], 'session')
+                    cs['modes'] = []
+                elif len(cs['inputs']) > 1:
+                    cs['inputs'][-1][1] = g.series(Lj + 1)
+                    cs = g.finish(m['Name'], cs['params'], cs['inputs'], [], 'session')
+                    cs['modes'] = []
+            members.append(cs)
+        new_session(members, 'mixed-models', split)
+
     exps = [expectation(cs, by_name) for cs in cases]
     lines = []
     index = []
@@ -648,6 +748,8 @@ def main():
         if 'col' in e:
             lines.append(inits_line(e))
     out = impl(lines)
+    sess_out = impl(['SESSION %d %d %s' % (ss['split'], len(ss['members']), ' '.join(b64(cs['text']) for cs in ss['members']))
+                     for ss in sessions])
     # model side
     mlines = []
     for cs, e, ix in zip(cases, exps, index):
@@ -699,6 +801,7 @@ def main():
     for i, (cs, e, ix, ml) in enumerate(zip(cases, exps, index, mout)):
         f = fields(out[ix]) if out[ix].startswith('R ') else {'exit': 'harness', 'docs': '0', 'raw': '', 'panic': '', 'doc': None}
         direct = parse_direct(out[ix + 1]) if e['cls'] == 'run' else None
+        cs['alone'] = f
         name = cs['model']
         replay = {'request': cs['text'], 'split_outputs': bool(cs['split']), 'via': cs.get('via', 'jsonrun child'),
                   'how': 'echo <request> | ow-single   (split) or sim.RunSingleModelJSON(r, w, false)',
@@ -864,6 +967,48 @@ def main():
             c.sample({'request': cs['text'][:400], 'split_outputs': bool(cs['split']), 'class': e['cls'],
                       'document': base64.b64decode(f['raw']).decode('utf8', 'replace')[:300]})
 
+    # ---------------------------------------------------------------- sessions: several requests, one process
+    sess_members = sess_compared = sess_skipped = 0
+    sess_k = {}
+    sess_modes = {}
+    for si, (ss, so) in enumerate(zip(sessions, sess_out)):
+        parts = so.split('\t')
+        members = ss['members']
+        c.count('session:' + '|'.join(cs['text'] for cs in members), nontrivial=True)
+        bump('session:' + ss['kind'])
+        sess_k[len(members)] = sess_k.get(len(members), 0) + 1
+        if parts[0] != 'S' or len(parts) != len(members) + 1:
+            c.violation('session_%d.json' % si, {'kind': 'session-harness-failure', 'output': so[:500],
+                                                 'requests': [cs['text'] for cs in members]})
+            continue
+        for j, (cs, rl) in enumerate(zip(members, parts[1:])):
+            sess_members += 1
+            for md in cs.get('modes', []):
+                sess_modes[md] = sess_modes.get(md, 0) + 1
+            fs = fields(rl)
+            al = cs['alone']
+            if fs['exit'] == '-98':
+                sess_skipped += 1          # the process died on an earlier member
+                continue
+            if not (al['exit'] == '0' and al['docs'] == '1'):
+                # the request kills a fresh process too (a known finding of its own): nothing to compare from here on
+                sess_skipped += 1
+                break
+            sess_compared += 1
+            if fs['exit'] != '0' or fs['docs'] != '1' or fs['raw'] != al['raw']:
+                c.violation('session_%d_%d.json' % (si, j), {
+                    'kind': 'answer-in-session-differs-from-answer-alone', 'split_outputs': bool(ss['split']),
+                    'how': 'one process; for each request in order: sim.RunSingleModelJSON(bytes.NewReader(request), &buf, split)',
+                    'requests_in_order': [x['text'] for x in members], 'differing_request_index': j,
+                    'answer_alone_fresh_process': base64.b64decode(al['raw']).decode('utf8', 'replace')[:3000],
+                    'answer_in_session': base64.b64decode(fs['raw']).decode('utf8', 'replace')[:3000],
+                    'session_exit': fs['exit'], 'session_docs': fs['docs'],
+                    'panic': base64.b64decode(fs['panic']).decode('utf8', 'replace')})
+                break
+        if si % 17 == 0:
+            c.sample({'session_of': [cs['model'] for cs in members], 'split_outputs': bool(ss['split']),
+                      'first_request': members[0]['text'][:200], 'second_request': members[1]['text'][:200]})
+
     # ---------------------------------------------------------------- JsonSafeArray / JsonSafeValue
     jcases = gen_jsa(rng, quick)
     jout = impl([j['line'] for j in jcases])
@@ -1001,7 +1146,11 @@ def main():
         'exactly chosen sizes just below / at / above 64 KiB, 1 MiB, 4 MiB -- thorough: further sizes up to 16 MiB+ -- made of long '
         'full-precision series for models with 1, 2, 5 and 8 inputs, also followed by trailing whitespace or a second document; '
         'those above 20000 values are judged by the bit-exact direct run only, not by the extracted model), plus one stream handed '
-        'to RunSingleModelJSON twice (one document per call required); each executed by '
+        'to RunSingleModelJSON twice (one document per call required), plus a session stream (2..6 requests served by ONE process through '
+        'one RunSingleModelJSON call each: the same model repeatedly with all parameters supplied / omitted / exactly 0 or at a range end / '
+        'mixed, and different models with equally many outputs interleaved, equal and different series lengths, error requests in '
+        'between; every answer must be byte-identical to the answer the same request gets alone in a fresh process, which is itself '
+        'checked against the direct run and the model); each executed by '
         'sim.RunSingleModelJSON in its own process (a share through the real ow-single binary) with both splitOutputs settings and '
         'checked against the property (one valid document, exit 0, log entries, bit-equal to a direct run, non-finite strings) and '
         'against the extracted Coq run_single; JSA: owjs.JsonSafeArray on ARange views reshaped to 1-4 dims with 0-2 '
@@ -1020,6 +1169,11 @@ def main():
                         'large_request_variants': sorted({cs['kind'] for cs in large_cases}),
                         'large_requests_judged_by_direct_run_only_model_skipped': model_skipped_large,
                         'reader_reuse_cases_two_calls_one_stream': len(reuse_cases),
+                        'sessions_one_process_several_requests': len(sessions), 'session_requests': sess_members,
+                        'session_answers_compared_with_fresh_process': sess_compared, 'session_answers_not_compared_process_died': sess_skipped,
+                        'session_sizes_k': {str(k): v for k, v in sorted(sess_k.items())},
+                        'session_kinds': {k[8:]: v for k, v in stats.items() if k.startswith('session:')},
+                        'session_parameter_modes': sess_modes,
                         'models_with_registered_kernel': sorted(x for x in registry_models if x),
                         'models_without_registered_kernel': sorted(x for x in nokernel_models if x),
                         'nonfinite_leaves_seen': nonfinite_leaves, 'jsa_cases': len(jcases), 'jsa_impl_panics_out_of_range_shift': jsa_panics,
